@@ -46,7 +46,7 @@ def code_lines(path):
     lines = open(path).read().split("\n")
     out = []
     for i, l in enumerate(lines):
-        if re.match(r"\s*#\[cfg\(test\)\]", l):
+        if re.match(r"\s*#\[cfg\(test\)\]", l) or re.match(r"\s*#\[test\]", l):
             break
         s = l.strip()
         if not s or s.startswith("//") or s.startswith("#[") or s.startswith("use ") or s.startswith("pub use"):
@@ -109,9 +109,9 @@ def main():
         rec = {"file": f, "line": i + 1, "old": old.strip(), "new": new.strip(), "rule": rule}
         try:
             open(path, "w").write("\n".join(lines))
-            rc, o = sh("cargo build --offline 2>&1 | tail -3", "/repo")
-            rc, o = sh("cargo test --offline 2>&1 | grep -E 'test result|FAILED|^error' ", "/repo")
-            if re.search(r"^error", o, re.M):
+            rcb, ob = sh("cargo build --offline", "/repo")
+            rc, o = ("", "") if rcb != 0 else sh("cargo test --offline 2>&1 | grep -E 'test result|FAILED' ", "/repo")
+            if rcb != 0:
                 rec["status"] = "does-not-compile"
             elif "FAILED" in o or o.count("test result: ok") < 3:
                 rec["status"] = "killed-by-existing-tests"
